@@ -178,6 +178,32 @@ Section CancelTransparent.
     rewrite E, E0. reflexivity.
   Qed.
 
+  (* a call depends on its own context only: whatever counter state the previous call on the same
+     Interpreter left behind, the call returns the same result and leaves the same state *)
+  Theorem call_independent_of_previous fuel cp m0 prev1 prev2 c :
+    fst (execute_all fuel cp m0 (call_cs prev1 c)) = fst (execute_all fuel cp m0 (call_cs prev2 c)).
+  Proof.
+    destruct c as [|b d]; [|reflexivity].
+    assert (H1 : silent (call_cs prev1 CallExecute)) by (left; reflexivity).
+    assert (H2 : silent (call_cs prev2 CallExecute)) by (left; reflexivity).
+    destruct (execute_all_same fuel cp m0 H1 H2) as (a & cs' & cs0' & E & E0 & _).
+    rewrite E, E0. reflexivity.
+  Qed.
+
+  (* hence a whole history of calls does not depend on the counter state it starts from, and every
+     call of it is [execute_all] from the initial state of that call alone *)
+  Theorem run_calls_independent_of_previous fuel cp reset : forall cs s prev1 prev2,
+    run_calls P F cancel_req IO fuel cp reset s prev1 cs = run_calls P F cancel_req IO fuel cp reset s prev2 cs.
+  Proof.
+    induction cs as [|c t IH]; intros s prev1 prev2; [reflexivity|].
+    cbn [Cancel.run_calls].
+    pose proof (call_independent_of_previous fuel cp {| ms := reset s; frame := []; depth := 0 |} prev1 prev2 c) as H.
+    destruct (execute_all fuel cp {| ms := reset s; frame := []; depth := 0 |} (call_cs prev1 c)) as [[r1 f1] c1].
+    destruct (execute_all fuel cp {| ms := reset s; frame := []; depth := 0 |} (call_cs prev2 c)) as [[r2 f2] c2].
+    cbn [fst] in H. inversion H; subst. f_equal.
+    destruct f2 as [s'|]; [apply IH|reflexivity].
+  Qed.
+
   (* closeAll is deferred: it has run whenever the call returns *)
   Theorem execute_all_closes fuel cp m0 cs x fin cs' :
     execute_all fuel cp m0 cs = (x, fin, cs') ->
